@@ -5,6 +5,10 @@ From FIM Require Import Base.Str Model.Sliver2Kinds Gen.PropMap Model.Sliver2Map
   Proofs.Sliver2Assoc Proofs.Sliver2MapRT.
 Import ListNotations.
 
+(* the lemmas of this file must not depend on the CONTENT of the regenerated tables *)
+Local Opaque enums type_enum to_base from_base to_specific from_specific setters getters init_attrs
+  sliver_property_to_graph no_unset_properties child_keys node_id_prop.
+
 Lemma from_val_cong k d1 d2 fe :
   pget (snd (fst fe)) d1 = pget (snd (fst fe)) d2 -> from_val k d1 fe = from_val k d2 fe.
 Proof. unfold from_val. intro H. rewrite H. reflexivity. Qed.
